@@ -223,7 +223,9 @@ const std::vector<sg::KVList> &pool()
       {{"k", sg::MValue(std::string("a"))}, {"n", sg::MValue(static_cast<int64_t>(1))}},
       {{"n", sg::MValue(static_cast<int64_t>(1))}},
       {{"n", sg::MValue(static_cast<int64_t>(2))}},
-      {{"k", sg::MValue(std::string("a"))}, {"flag", sg::MValue(true)}},
+      // the same key as s4 with a numerically equal value of ANOTHER TYPE (true hashes like the integer 1): a
+      // different attribute set, whatever the hashes say  (seeded C17-m12; was {k='a', flag=true} before)
+      {{"n", sg::MValue(true)}},
   };
   return p;
 }
@@ -1475,8 +1477,8 @@ struct GaugeModel
 // the pool set that remains of pool set `set` behind the allow-list `filter`
 int filtered_set(int filter, int set)
 {
-  static const int by_k[kSets] = {0, 1, 2, 1, 0, 0, 1};
-  static const int by_n[kSets] = {0, 0, 0, 4, 4, 5, 0};
+  static const int by_k[kSets] = {0, 1, 2, 1, 0, 0, 0};
+  static const int by_n[kSets] = {0, 0, 0, 4, 4, 5, 6};
   return filter == 1 ? by_k[set] : filter == 2 ? by_n[set] : set;
 }
 std::unordered_map<std::string, bool> allow_list(int filter)
